@@ -51,6 +51,7 @@ def setup(P):
         y = param.Number(default=0.0)
         b = param.Parameter(default=None)
         items = param.List(default=[1])
+        owner = param.Parameter(default=None)       # optional back-reference to the object that holds this one
 
     class Obj(param.Parameterized):
         a = param.Number(default=1.0, bounds=(-1e9, 1e9))
@@ -204,6 +205,9 @@ def run_case(idx, rng, P, rep):
         if c < 0.8:
             obj.sub = Sub(x=tokv(), y=tokv(), b=Sub(y=tokv()) if rng.random() < 0.6 else None)
             flags['sub'] = True
+            if rng.random() < 0.25:
+                obj.sub.owner = obj
+                return 'attach-sub-with-back-reference'
             return 'attach-sub'
         if c < 0.86:
             obj.other = Sub(x=tokv())
@@ -225,6 +229,7 @@ def run_case(idx, rng, P, rep):
         rep.violation(f'C17/{key}', msg, case=desc)
 
     before = snapshot(o)
+    via_sub = [False]
     in_batch = rng.random() < 0.15
     desc['copied_inside_open_batch'] = in_batch
     try:
@@ -232,13 +237,24 @@ def run_case(idx, rng, P, rep):
         with (param.parameterized.batch_call_watchers(o) if in_batch else contextlib.nullcontext()):
             if in_batch:
                 rep.count('copies_inside_open_batch')
+            # the copy may also be started from the sub-object of a cyclic pair (sub.owner is o): the parent copy is then
+            # reached through the copied sub-object
+            start = o
+            if isinstance(o.sub, param.Parameterized) and o.sub.owner is o and rng.random() < 0.5:
+                start = o.sub
+                via_sub[0] = True
+                rep.count('copies_started_from_back_referencing_subobject')
             if mech == 'deepcopy':
-                c = copy.deepcopy(o)
+                c = copy.deepcopy(start)
             else:
-                c = pickle.loads(pickle.dumps(o, protocol=int(mech[-1])))
+                c = pickle.loads(pickle.dumps(start, protocol=int(mech[-1])))
                 rep.count('pickle_copies')
+            if start is not o:
+                c = c.owner
     except Exception as e:   # noqa: BLE001
         sub = '/with-subobject-dependency' if flags['sub'] else ''
+        if via_sub[0]:
+            sub = '/started-from-subobject-that-refers-back-to-its-dependent-parent'
         viol(f'copy-raised/{mech.rstrip("012345")}{sub}', f'{mech} raised {type(e).__name__}: {e}')
         rep.case((mech, tuple(hist), 'raised'), True)
         return
